@@ -430,3 +430,65 @@ func MapRange(v ssa.Value) (rng *ssa.Range, which int, ok bool) {
 	}
 	return r, e.Index, true
 }
+
+// ParamOrigins follows parameter k of fn to the values passed by its (static, module-internal) callers,
+// transitively through callers that pass one of their own parameters (depth-bounded).
+func (p *Prog) ParamOrigins(fn *ssa.Function, k int, depth int) []ssa.Value {
+	var out []ssa.Value
+	n := p.CallGraph().Nodes[fn]
+	if n == nil || depth > 4 {
+		return nil
+	}
+	for _, e := range n.In {
+		if e.Site == nil || e.Site.Common().StaticCallee() != fn {
+			continue
+		}
+		args := e.Site.Common().Args
+		if k >= len(args) {
+			continue
+		}
+		a := args[k]
+		if prm, ok := a.(*ssa.Parameter); ok {
+			caller := prm.Parent()
+			for i, cp := range caller.Params {
+				if cp == prm {
+					out = append(out, p.ParamOrigins(caller, i, depth+1)...)
+				}
+			}
+			continue
+		}
+		out = append(out, a)
+	}
+	return out
+}
+
+// ElemStores returns the values stored into elements of the slice value v (v[i] = x) in v's function.
+func ElemStores(v ssa.Value) []ssa.Value {
+	var out []ssa.Value
+	refs := v.Referrers()
+	if refs == nil {
+		return nil
+	}
+	for _, r := range *refs {
+		ia, ok := r.(*ssa.IndexAddr)
+		if !ok || ia.Referrers() == nil {
+			continue
+		}
+		for _, r2 := range *ia.Referrers() {
+			if st, ok := r2.(*ssa.Store); ok && st.Addr == ssa.Value(ia) {
+				out = append(out, st.Val)
+			}
+		}
+	}
+	return out
+}
+
+// ParamIndex returns the index of the parameter named name in fn (-1 if absent).
+func ParamIndex(fn *ssa.Function, name string) int {
+	for i, p := range fn.Params {
+		if p.Name() == name {
+			return i
+		}
+	}
+	return -1
+}
